@@ -827,7 +827,7 @@ func genBP(o *kit.Out, r *kit.Rand, thorough bool) {
 	nbits := 64
 	if thorough {
 		sizes = append(sizes, 1023, 1024, 1025, 1100, 3000)
-		nbits = 1500
+		nbits = 1000
 		// small trees with EVERY proof bit of both operators flipped (quick: the corpus does this)
 		bpCase(o, r, "bp-allbits-3", 3, 1, false, 2, 100000)
 		bpCase(o, r, "bp-allbits-40", 40, 2, false, 2, 100000)
